@@ -18,6 +18,7 @@ READERS = ("read_fasta", "read_clu", "read_msf")
 
 def describe(ck):
     ck.rule("R04a", "read_fasta / read_clu / read_msf contain the same character-classification chain (histogram; isalpha -> append, len++, growth check; ispunct -> gaps[len]++)")
+    ck.rule("R04i", "per byte value: every letter is appended, every punctuation character counted as a gap, the three readers treat all 128 byte values alike, and a letter and its case twin take the same branch")
     ck.rule("R04b", "gap slots: every loop that zeroes, totals or materialises gaps covers 0..len of every sequence; UNALIGNED is assigned only where all gaps are zero; nothing before the merge phase reads gaps")
     ck.rule("R04c", "kalign_read_input accumulates: *msa receives the new msa only when it was NULL, otherwise merge_msa; never NULL; merge_msa recomputes alphabet, status and profiles")
     ck.not_decided += ["equality of the outputs for two presentations of the same records",
@@ -37,19 +38,35 @@ def _ctype_of(cond):
 
 
 def _ctype_arg(cond):
-    """text of the character expression a ctype test looks at"""
+    """text of the character expression a ctype test (or an explicit range test) looks at"""
     for x in cond.walk():
         if x.k == "ArraySubscriptExpr" and any(c.callee == "__ctype_b_loc" for c in x.kids[0].calls()):
             return x.kids[1].strip(casts=True).text()
         if x.k == "CallExpr" and x.callee in _CTYPE:
             return x.args[0].strip(casts=True).text()
+    for x in cond.walk():
+        if x.k in ("ArraySubscriptExpr", "DeclRefExpr") and x.ty.replace("const ", "") == "char":
+            return x.text()
     return None
 
 
-def _actions(body, chartext):
-    """summarise what a branch does to the current sequence record"""
+_PROG = [None]
+
+
+def _actions(body, chartext, depth=0):
+    """summarise what a branch does to the current sequence record (private helpers the branch calls are looked into, the
+    character argument followed into the parameter that receives it)"""
     acts = set()
     for n in body.walk():
+        if n.k == "CallExpr" and n.callee and not n.callee.startswith("resize_") and _PROG[0] is not None and depth < 2:
+            H = _PROG[0].functions.get(n.callee)
+            if H is not None and H.body is not None and H.static:
+                ct = chartext
+                for i, a in enumerate(n.args):
+                    if a.strip(casts=True).text() == chartext and i < len(H.params):
+                        ct = H.params[i]["name"]
+                acts |= _actions(H.body, ct, depth + 1)
+                continue
         if n.k == "BinaryOperator" and n.d["op"] == "=":
             l = n.kids[0].strip()
             if l.k == "ArraySubscriptExpr":
@@ -79,15 +96,19 @@ def _actions(body, chartext):
 
 
 def reader_signature(prog, F):
+    _PROG[0] = prog
     chains = []
     for n in F.body.find("IfStmt"):
         if n.role == "else":
             continue
         links, final = if_chain(n)
-        if any(_ctype_of(c) & {"isalpha", "ispunct", "isdigit", "isalnum", "isupper", "islower"} for c, _ in links):
+        if any(_ctype_of(c) & {"isalpha", "ispunct", "isdigit", "isalnum", "isupper", "islower"} for c, _ in links) or \
+                any(x.ty.replace("const ", "") == "char" and x.k == "ArraySubscriptExpr" for x in links[0][0].walk()):
             loops = [a for a in n.ancestors() if a.k in ("ForStmt", "WhileStmt")]
             if loops:
                 chains.append((n, links, final, loops[0]))
+    # an enclosing chain (if (line[0] == '>') ... else { the character loop }) is not the classification itself
+    chains = [c for c in chains if not any(o[0] is not c[0] and o[0].within(c[0]) for o in chains)]
     # keep chains that touch the sequence record
     sig = []
     where = None
@@ -100,6 +121,9 @@ def reader_signature(prog, F):
             entry.append((("else",), tuple(sorted(_actions(final, chartext))), True))
         if not any(a for _, a, _ in entry):
             continue
+        if not any(_ctype_of(c) & {"isalpha", "ispunct", "isdigit", "isalnum", "isupper", "islower"} for c, _ in links) and \
+                not any("len++" in a or "gaps[len]++" in a for _, a, _ in entry):
+            continue                    # an if-chain on a character that is not the residue / gap classification (e.g. '>' lines)
         # histogram statement in the same loop body, on the same character
         hist = []
         for u in loop.find("UnaryOperator"):
@@ -112,6 +136,88 @@ def reader_signature(prog, F):
         sig.append((tuple(entry), tuple(hist)))
         where = n
     return sig, where
+
+
+def reader_byte_classes(prog, F):
+    """for the character-classification chain of a reader: {byte 0..127: tuple of actions of the branch that byte takes},
+    by exact evaluation of the chain's conditions for every byte value (ctype predicates with C-locale semantics, explicit
+    ranges, negations, && / || alike); (None, why) if the chain or its character is not understood"""
+    from ..bytedom import Sym, ev
+    _PROG[0] = prog
+    fns = [F] + [prog.functions[c.callee] for c in F.body.calls() if c.callee in prog.functions and prog.functions[c.callee].static
+                 and prog.functions[c.callee].file == F.file]
+    best = None
+    for G in fns:
+        ifs = [n for n in G.body.find("IfStmt") if n.role != "else" and any(a.k in ("ForStmt", "WhileStmt") for a in n.ancestors())]
+        # innermost chains first: the chain that tests the character directly, not an enclosing `if (line_len > 1)`
+        for n in sorted(ifs, key=lambda x: -len(list(x.ancestors()))):
+            links, final = if_chain(n)
+            cands = [x for x in links[0][0].find("ArraySubscriptExpr") if x.ty.replace("const ", "") == "char"]
+            cands += [x for x in links[0][0].find("DeclRefExpr") if x.ty.replace("const ", "") == "char"]
+            if not cands:
+                continue
+            chartext = cands[0].text()
+            acts = [tuple(sorted(_actions(th, chartext))) for c, th in links]
+            felse = tuple(sorted(_actions(final, chartext))) if final is not None else ()
+            if not any("len++" in a or "gaps[len]++" in a for a in acts + [felse]):
+                continue                # not the residue / gap chain (e.g. the name parser)
+            sym = Sym(text=chartext, ty="char")
+            out = {}
+            for b in range(128):
+                cls = felse
+                for (c, th), a in zip(links, acts):
+                    v = ev(c, sym, b)
+                    if v is None:
+                        return None, "condition %s of %s cannot be evaluated for byte %d" % (c.text()[:40], G.name, b)
+                    if v:
+                        cls = a
+                        break
+                out[b] = cls
+            return out, n
+    return None, "no classification chain found in %s" % F.name
+
+
+def r04i(ck, prog, rule="R04i", case_only=False):
+    """what a reader does with a character depends only on its class, evaluated for every byte: (1) every letter is
+    appended, every punctuation character is counted as a gap, and the three readers treat every byte alike;
+    (2) a letter and its other-case twin take the same branch (C14: case cannot change what is read)"""
+    import string
+    maps = {}
+    for r in READERS:
+        m, where = reader_byte_classes(prog, prog.fn(r))
+        if m is None:
+            raise AnalysisBroken("%s: %s" % (rule, where))
+        maps[r] = (m, where)
+        letters = {m[ord(c)] for c in string.ascii_letters}
+        ck.inst(rule, site(prog, where, r), "%s: %d distinct treatments over 128 byte values; letters -> %s" % (
+            r, len(set(m.values())), sorted(letters)[:2]), prog.config)
+        for c in string.ascii_uppercase:
+            if m[ord(c)] != m[ord(c.lower())]:
+                ck.violation(rule, "%s/%s/case-%s" % (rule, r, c), site(prog, where, r),
+                             "%s treats '%s' (%s) and '%s' (%s) differently: changing the case of a residue changes what is read" % (
+                                 r, c, list(m[ord(c)]) or "ignored", c.lower(), list(m[ord(c.lower())]) or "ignored"), prog.config)
+        if case_only:
+            continue
+        for c in string.ascii_letters:
+            a = m[ord(c)]
+            if not ({"seq[len]=char", "len++"} <= set(a)):
+                ck.violation(rule, "%s/%s/letter-%s" % (rule, r, c), site(prog, where, r),
+                             "%s does not append the letter '%s' (it does %s): residues are lost" % (r, c, list(a) or "nothing"), prog.config)
+                break
+        for b in range(33, 127):
+            if chr(b) in string.punctuation and "gaps[len]++" not in maps[r][0][b]:
+                ck.violation(rule, "%s/%s/punct-%d" % (rule, r, b), site(prog, where, r),
+                             "%s does not count '%s' as a gap symbol (it does %s)" % (r, chr(b), list(m[b]) or "nothing"), prog.config)
+                break
+    if not case_only:
+        ref = READERS[0]
+        for r in READERS[1:]:
+            diff = [b for b in range(128) if maps[r][0][b] != maps[ref][0][b]]
+            if diff:
+                b = diff[0]
+                ck.violation(rule, "%s/%s/differs" % (rule, r), site(prog, maps[r][1], r),
+                             "%s and %s treat %d byte value(s) differently, e.g. %r: %s vs %s" % (
+                                 r, ref, len(diff), chr(b), list(maps[r][0][b]) or "ignored", list(maps[ref][0][b]) or "ignored"), prog.config)
 
 
 def r04a(ck, prog):
@@ -136,24 +242,27 @@ def r04a(ck, prog):
             r, " | ".join("%s->{%s}" % ("+".join(p), ",".join(a)) for p, a, _ in entry), list(hist)), prog.config)
     ref_name = READERS[0]
     ref = sigs[ref_name][0]
+    # which bytes take which branch is decided value by value in R04i (so isalpha(c) and ('A' <= c && c <= 'Z' || ...) are the
+    # same thing); here the branches themselves are compared: what each does, in which order, on which character
+    strip = lambda sg: (tuple((a, same) for p, a, same in sg[0]), sg[1])
     for r in READERS[1:]:
-        if sigs[r][0] != ref:
+        if strip(sigs[r][0]) != strip(ref):
             a = sigs[r][0]
             ck.violation("R04a", "R04a/%s/differs" % r, site(prog, sigs[r][1], r),
-                         "%s classifies characters differently from %s: %s  vs  %s" % (r, ref_name, a[0], ref[0]), prog.config)
-    # absolute shape (so that all three drifting together is noticed too)
+                         "%s handles the classified characters differently from %s: %s  vs  %s" % (r, ref_name, a[0], ref[0]), prog.config)
     want_preds = [("isalpha",), ("ispunct",)]
     for r in READERS:
         entry, hist = sigs[r][0]
         preds = [p for p, a, same in entry if p != ("else",)]
         where = site(prog, sigs[r][1], r + " shape")
         if preds != want_preds:
-            ck.violation("R04a", "R04a/%s/predicates" % r, where,
-                         "%s tests %s; letters are residues (isalpha) and punctuation is a gap (ispunct)" % (r, preds), prog.config)
+            ck.info("R04a", "%s spells its tests as %s; the branch each byte takes is decided in R04i" % (r, preds))
             continue
         alpha = set(entry[0][1])
         punct = set(entry[1][1])
         need_alpha = {"seq[len]=char", "len++"}
+        if not alpha:
+            raise AnalysisBroken("R04a: what %s does with a letter is not visible in the branch or a private helper it calls; not decided" % r)
         if not need_alpha <= alpha or not any(x.startswith("grow-if(") and "alloc_len" in x and "len" in x for x in alpha):
             ck.violation("R04a", "R04a/%s/append" % r, where,
                          "%s: the letter branch does %s; it must append the tested character at seq[len], increment len "
@@ -471,6 +580,7 @@ def run(ck, progs):
     ck.rule("R04g", "no reader treats an absolute line number as special: loops over the input lines never break unconditionally")
     for cfg, prog in progs.items():
         ck.attempt(r04a, ck, prog)
+        ck.attempt(r04i, ck, prog)
         ck.attempt(r04b, ck, prog)
         from . import c01
         ck.attempt(c01.dealign_rule, ck, prog, "R04b")
